@@ -1,39 +1,34 @@
 /- C01: assembly of the soundness invariant for every amount of fuel, and its reading on whole programs. -/
 import XrayProofs.CoreTypingStep3
 import XrayProofs.CoreTypingStep4
+import XrayProofs.CoreTypingStep5
 namespace XrayModel.CoreTyping
 open XrayModel.Core
 
-/-- the step of the invariant for the natives that the evaluator implements itself
-(`if`, `and`, `or`, `if_error`, `is_error`, `display` and the strict natives) -/
-def BuiltinStep : Prop :=
-  ∀ n, Inv n → ∀ cfg fr f args tail st Γ ats τ, FrameTy fr Γ → checkList Γ args = some ats →
-    builtinTy f ats = some τ → ResOk Γ fr tail τ (builtin (n+1) cfg fr f (eraseEs args) tail st).1
-
-theorem inv_all (hB : BuiltinStep) : ∀ n, Inv n
+theorem inv_all : ∀ n, Inv n
   | 0 => inv_zero
   | n + 1 =>
-    have ih := inv_all hB n
+    have ih := inv_all n
     ⟨step_eval ih, step_callNamed ih, step_callVal ih, step_evalList ih, step_mkClos ih, step_evalDflts ih,
-     step_callUser ih, step_tramp ih, step_evalDecls ih, hB n ih⟩
+     step_callUser ih, step_tramp ih, step_evalDecls ih, step_builtin ih⟩
 
 theorem frameTy_root : FrameTy { env := [], self := none, height := 0 } [] := by
   unfold FrameTy Frame.eff; exact .nil
 
-theorem program_ok (hB : BuiltinStep) {ds : List TDecl} {Γ : TyEnv} (h : checkProgram ds = some Γ) (fuel : Nat) (cfg : Cfg) :
+theorem program_ok {ds : List TDecl} {Γ : TyEnv} (h : checkProgram ds = some Γ) (fuel : Nat) (cfg : Cfg) :
     DeclsOk { env := [], self := none, height := 0 } Γ (runProgram fuel cfg (eraseDs ds)).1 :=
-  (inv_all hB fuel).evalDecls cfg _ ds {} [] Γ frameTy_root h
+  (inv_all fuel).evalDecls cfg _ ds {} [] Γ frameTy_root h
 
-theorem program_not_stuck (hB : BuiltinStep) {ds : List TDecl} {Γ : TyEnv} (h : checkProgram ds = some Γ) (fuel : Nat) (cfg : Cfg)
+theorem program_not_stuck {ds : List TDecl} {Γ : TyEnv} (h : checkProgram ds = some Γ) (fuel : Nat) (cfg : Cfg)
     (why : String) (st : St) : runProgram fuel cfg (eraseDs ds) ≠ (.error (.stuck why), st) := by
   intro he
-  have := program_ok hB h fuel cfg
+  have := program_ok h fuel cfg
   rw [he] at this
   simp [DeclsOk, ErrOk] at this
 
-theorem program_preserves (hB : BuiltinStep) {ds : List TDecl} {Γ : TyEnv} (h : checkProgram ds = some Γ) (fuel : Nat) (cfg : Cfg)
+theorem program_preserves {ds : List TDecl} {Γ : TyEnv} (h : checkProgram ds = some Γ) (fuel : Nat) (cfg : Cfg)
     (fr : Frame) (st : St) (hr : runProgram fuel cfg (eraseDs ds) = (.ok fr, st)) : EnvTy fr.env Γ := by
-  have := program_ok hB h fuel cfg
+  have := program_ok h fuel cfg
   rw [hr] at this
   simp only [DeclsOk] at this
   obtain ⟨hf, hs, _⟩ := this
